@@ -10,6 +10,7 @@ package main
 
 import (
 	"encoding/json"
+	"flag"
 	"fmt"
 	"os"
 	"sort"
@@ -19,6 +20,7 @@ import (
 	"verif/core"
 	"verif/seqx"
 	"verif/sig"
+	"verif/vrt"
 	"verif/vtime"
 )
 
@@ -476,11 +478,108 @@ func (w *world) Canon() string {
 func (w *world) Outcome() string { return w.outcome }
 
 func cfg(alpha string) seqx.Config {
-	d := core.Pick(5, 7)
+	d := core.Pick(4, 7)
 	if alpha == "full" {
-		d = core.Pick(4, 5)
+		d = core.Pick(3, 5)
 	}
 	return seqx.Config{Name: "chat/" + alpha, Fresh: fresh(alpha), MaxDepth: d, Parallel: 1}
+}
+
+// racePrograms: message handlers of different clients interleaved at every
+// lock operation (Engine D world under the Engine B scheduler).
+func racePrograms() []sig.RaceProgram {
+	groups := map[string]string{"g": groupG, "h": groupH}
+	chatSeen := func(w *sig.World, k int, value string) (live, replayed int) {
+		for _, m := range w.Clients[k].Out {
+			if s(m["value"]) == value {
+				if m["type"] == "chat" {
+					live++
+				} else if m["type"] == "chathistory" {
+					replayed++
+				}
+			}
+		}
+		return
+	}
+	joined := func(w *sig.World) {
+		w.Send(0, sig.Join("g", "alice", "pa"))
+		w.Send(1, sig.Join("g", "bob", "pb"))
+	}
+	drain := func(w *sig.World, i int) {
+		for n := 0; n < 20; n++ {
+			o := w.Drain(i)
+			if len(w.Signalled()) == 0 || o.Panic != "" {
+				return
+			}
+		}
+	}
+	return []sig.RaceProgram{
+		{Name: "chat-vs-join", Groups: groups, Clients: 3, Setup: joined, MaxPreempt: core.Pick(2, 3),
+			Names: []string{"c0:chat", "c2:join+replay"},
+			Threads: []func(w *sig.World){
+				func(w *sig.World) {
+					w.Send(0, sig.Msg{"type": "chat", "source": "c0", "username": "alice", "value": "hello"})
+				},
+				func(w *sig.World) { w.Send(2, sig.Join("g", "carol", "pc")); drain(w, 2) },
+			},
+			Final: func(w *sig.World) (string, *core.Violation) {
+				live, rep := chatSeen(w, 2, "hello")
+				if live+rep == 0 {
+					return "", &core.Violation{Signature: "C15/race/broadcast-lost-for-concurrent-joiner",
+						What: "a client that joined while a broadcast chat was being handled received it neither live nor in its history replay"}
+				}
+				l1, _ := chatSeen(w, 1, "hello")
+				if l1 != 1 {
+					return "", &core.Violation{Signature: "C15/race/broadcast-not-delivered", What: "an established member did not receive the broadcast exactly once"}
+				}
+				return fmt.Sprintf("live%d/replay%d", live, rep), nil
+			}},
+		{Name: "chat-vs-clearchat-vs-join", Groups: groups, Clients: 3, Setup: func(w *sig.World) {
+			joined(w)
+			w.Send(1, sig.Msg{"type": "chat", "source": "c1", "username": "bob", "value": "old"})
+		}, MaxPreempt: core.Pick(2, 3),
+			Names: []string{"c0:clearchat", "c1:chat", "c2:join+replay"},
+			Threads: []func(w *sig.World){
+				func(w *sig.World) {
+					w.Send(0, sig.Msg{"type": "groupaction", "kind": "clearchat", "source": "c0", "username": "alice"})
+				},
+				func(w *sig.World) {
+					w.Send(1, sig.Msg{"type": "chat", "source": "c1", "username": "bob", "value": "new"})
+				},
+				func(w *sig.World) { w.Send(2, sig.Join("g", "carol", "pc")); drain(w, 2) },
+			},
+			Final: func(w *sig.World) (string, *core.Violation) {
+				// replay is an in-order subsequence of what was broadcast: "old" never after "new"
+				var vals []string
+				for _, m := range w.Clients[2].Out {
+					if m["type"] == "chathistory" {
+						vals = append(vals, s(m["value"]))
+					}
+				}
+				if strings.Join(vals, ",") == "new,old" {
+					return "", &core.Violation{Signature: "C15/race/history-out-of-order", What: "history replayed out of order: " + strings.Join(vals, ",")}
+				}
+				for _, m := range w.Clients[2].Out {
+					if (m["type"] == "chat" || m["type"] == "chathistory") && s(m["source"]) != "c1" {
+						return "", &core.Violation{Signature: "C15/race/forged-source", What: fmt.Sprint(m)}
+					}
+				}
+				return strings.Join(vals, ","), nil
+			}},
+	}
+}
+
+func runRaces(res *core.Result, shard, shards int) {
+	sig.Scheduled = true
+	for _, p := range racePrograms() {
+		if !core.Want("race/" + p.Name) {
+			continue
+		}
+		sub := vrt.Explore(p.Program("C15/race"), res, shard, shards)
+		sub.Name = "race/" + p.Name
+		res.AddSub(sub)
+	}
+	sig.Cleanup()
 }
 
 func main() {
@@ -493,36 +592,61 @@ func main() {
 		replay(o.Replay)
 		return
 	}
+	if o.Shard >= 0 && flag.Arg(0) == "race" {
+		runRaces(res, o.Shard, o.Shards)
+		core.Finish(res, t0)
+	}
 	if o.Shard < 0 {
 		core.RunShards(res, core.NCPU(), nil, nil)
+		core.RunShards(res, 4, []string{"race"}, nil)
 		res.Assume("queued actions are handled to quiescence after every message (the property quantifies over histories and inputs, not schedules); client k always logs in as the k-th configured user")
 		core.Finish(res, t0)
 	}
-	// shard by (alphabet, first operation)
+	// shard by (alphabet, preset, first operation after the preset)
 	job := 0
 	agg := map[string]*core.Sub{}
+	presets := map[string][]seqx.Op{
+		"empty":      nil,
+		"two-joined": {op{C: 0, Kind: "join", Arg: "g"}, op{C: 1, Kind: "join", Arg: "g"}},
+		"two-groups": {op{C: 0, Kind: "join", Arg: "g"}, op{C: 1, Kind: "join", Arg: "h"}, op{C: 2, Kind: "join", Arg: "g"}},
+		"chatted":    {op{C: 0, Kind: "join", Arg: "g"}, op{C: 1, Kind: "join", Arg: "g"}, op{C: 0, Kind: "chat-id"}, op{C: 1, Kind: "chat-id"}, op{C: 1, Kind: "chat"}},
+	}
+	pnames := []string{"empty", "two-joined", "two-groups", "chatted"}
 	for _, a := range []string{"small", "full"} {
-		w0 := fresh(a)()
-		first := w0.Ops()
-		w0.(*world).Close()
-		for _, f := range first {
-			job++
-			if job%o.Shards != o.Shard {
-				continue
+		for _, pn := range pnames {
+			pre := presets[pn]
+			w0 := fresh(a)()
+			for _, x := range pre {
+				if v := w0.Apply(x); v != nil {
+					v.Replay = map[string]any{"config": "chat/" + a, "ops": pre}
+					res.Violate(*v)
+				}
 			}
-			c := cfg(a)
-			c.Prefix = []seqx.Op{f}
-			sub := seqx.Explore(c, res)
-			if x := agg[a]; x == nil {
-				sub.Name = "chat/" + a
-				agg[a] = &sub
-			} else {
-				x.States += sub.States
-				x.Transitions += sub.Transitions
-				x.Executions += sub.Executions
-				x.Exhaustive = x.Exhaustive && sub.Exhaustive
-				if sub.Outcomes > x.Outcomes {
-					x.Outcomes = sub.Outcomes
+			first := w0.Ops()
+			w0.(*world).Close()
+			for _, f := range first {
+				job++
+				if job%o.Shards != o.Shard {
+					continue
+				}
+				c := cfg(a)
+				c.Prefix = append(append([]seqx.Op{}, pre...), f)
+				if pn != "empty" {
+					c.MaxDepth = len(pre) + core.Pick(3, 5)
+				}
+				sub := seqx.Explore(c, res)
+				if x := agg[a]; x == nil {
+					sub.Name = "chat/" + a
+					sub.Bound = fmt.Sprintf("from the empty state (depth<=%d) and 3 presets (depth<=%d beyond the preset)", cfg(a).MaxDepth, core.Pick(3, 5))
+					agg[a] = &sub
+				} else {
+					x.States += sub.States
+					x.Transitions += sub.Transitions
+					x.Executions += sub.Executions
+					x.Exhaustive = x.Exhaustive && sub.Exhaustive
+					if sub.Outcomes > x.Outcomes {
+						x.Outcomes = sub.Outcomes
+					}
 				}
 			}
 		}
